@@ -16,6 +16,8 @@ CONSTANTS
   Defect_EvStopUnderLock = FALSE
   Defect_EvSyncCallback = FALSE
   EvEager = FALSE
+  Defect_CloseHoldsStateLock = FALSE
+  Defect_QuitNonBlocking = FALSE
   Defect_ReconnectInline = FALSE
   Mut = "none"
 INVARIANT Goal_RequestAfterStopBusy
